@@ -283,6 +283,31 @@ def _worker(args):
     str_family("crypto_pwhash_argon2id", lambda st: lib.crypto_pwhash_argon2id_str(st, pw8, ull(8), ull(1), sz(8 * 1024)), lib.crypto_pwhash_argon2id_str_verify, lib.crypto_pwhash_argon2id_str_needs_rehash, 1, 8, "argon2id")
     str_family("crypto_pwhash_argon2i", lambda st: lib.crypto_pwhash_argon2i_str(st, pw8, ull(8), ull(3), sz(9 * 1024)), lib.crypto_pwhash_argon2i_str_verify, lib.crypto_pwhash_argon2i_str_needs_rehash, 3, 9, "argon2i")
 
+    # strings from other producers: tags of every length class (16..64 bytes) and salts of 8..16 bytes, built with the reference; the correct
+    # password must verify and every single-character change of the tag must not (the reference decides: some last-character changes do not decode)
+    B64A = b"ABCDEFGHIJKLMNOPQRSTUVWXYZabcdefghijklmnopqrstuvwxyz0123456789+/"
+    for typ, vfns in (("argon2id", (lib.crypto_pwhash_str_verify, lib.crypto_pwhash_argon2id_str_verify)), ("argon2i", (lib.crypto_pwhash_str_verify, lib.crypto_pwhash_argon2i_str_verify))):
+        for tl, sl in ((16, 16), (17, 8), (31, 9), (32, 8), (33, 8), (40, 12), (48, 8), (63, 8), (64, 8)):
+            t_ = 3 if typ == "argon2i" else 1
+            salt_ = bytes(range(40, 40 + sl))
+            sref = ps.argon2_encode(typ, t_, 8, 1, salt_, ps.argon2_raw(typ, pw8, salt_, t_, 8, 1, tl)).encode()
+            if len(sref) >= 128: continue
+            tag_at = sref.rindex(b"$") + 1
+            cands = [(sref, "intact")]
+            for pos_ in range(tag_at, len(sref)):
+                for delta in (1, 17):
+                    ch = B64A[(B64A.index(sref[pos_:pos_ + 1]) + delta) % 64:][:1]
+                    cands.append((sref[:pos_] + ch + sref[pos_ + 1:], "tagchar%d+%d" % (pos_ - tag_at, delta)))
+            for cs, lab in cands:
+                want = bool(ps.argon2_str_verify(cs, pw8, expect_type=typ, min_hash=16))
+                if lab == "intact" and not want: raise AssertionError("reference rejects its own string")
+                buf2 = ctypes.create_string_buffer(cs, len(cs) + 1)
+                for fi, vf_ in enumerate(vfns):
+                    n += 1
+                    got = vf_(buf2, pw8, ull(8)) == 0
+                    if got != want:
+                        fails.append(("crypto_pwhash%s_str_verify/%s/foreign-string/%s/taglen=%d/saltlen=%d/%s" % ("" if fi == 0 else "_" + typ, tag, typ, tl, sl, lab),
+                                      "string %r: library %s, reference %s" % (cs, "accepts" if got else "rejects", "accepts" if want else "rejects")))
     # needs_rehash over the whole documented parameter range (it only parses, so strings with huge cost parameters are free to judge): the
     # string's (t, m) against requested (opslimit, memlimit) on a grid that includes 4 GiB (2^22 KiB), 2^32-1 KiB and 2^32-1 passes
     grid = [(3, 8), (3, 9), (4, 8), (3, 4194303), (3, 4194304), (5, 4194305), (3, (1 << 32) - 1), ((1 << 32) - 1, 8), ((1 << 32) - 1, (1 << 32) - 1), (65536, 65536)]
